@@ -5,6 +5,7 @@ package main
 // write the evidence file, print the verdict lines.
 
 import (
+	"golang.org/x/tools/go/ssa/ssautil"
 	"encoding/json"
 	"flag"
 	"fmt"
@@ -232,6 +233,29 @@ func runCheck(pc *PropConfig, tier string, seed int, writeBaseline, verbose bool
 		}
 		for _, fn := range fns {
 			targets = append(targets, target{pf, fn})
+		}
+	}
+	// a contract that names no function of its package binds nothing: say so (a renamed callee, or a contract
+	// written in the wrong package's file, would otherwise be dropped silently)
+	{
+		all := map[string]bool{}
+		for fn := range ssautil.AllFunctions(l.prog) {
+			p, n := relName(fn)
+			all[p+"."+n] = true
+			if o := fn.Origin(); o != nil {
+				po, no := relName(o)
+				all[po+"."+no] = true
+			}
+		}
+		var dangling []string
+		for key := range l.cs.funcs {
+			if !all[key] {
+				dangling = append(dangling, key)
+			}
+		}
+		sort.Strings(dangling)
+		for _, d := range dangling {
+			notes = append(notes, "contract binds to no function of the loaded packages: "+d)
 		}
 	}
 	jobs := make([]*job, len(targets))
